@@ -667,3 +667,41 @@ func DiffKinds(diff []string) []string {
 	sort.Strings(out)
 	return out
 }
+
+// IgnoreCheckNaming removes from a DiffFacts result the pairs "- check t [n] e" / "+ check t [] e"
+// (in either direction): a named and an unnamed CHECK with the same expression. SQLite attaches no
+// meaning to the name and Atlas documents comparing a check by expression when one side is unnamed.
+func IgnoreCheckNaming(diff []string) []string {
+	type ck struct{ table, name, expr string }
+	parse := func(d string) (ck, bool) {
+		f := strings.SplitN(d[2:], " ", 4)
+		if len(f) != 4 || f[0] != "check" {
+			return ck{}, false
+		}
+		return ck{f[1], strings.Trim(f[2], "[]"), f[3]}, true
+	}
+	drop := map[int]bool{}
+	for i, a := range diff {
+		ca, ok := parse(a)
+		if !ok || drop[i] {
+			continue
+		}
+		for j, b := range diff {
+			cb, ok := parse(b)
+			if !ok || drop[j] || i == j || a[0] == b[0] {
+				continue
+			}
+			if ca.table == cb.table && ca.expr == cb.expr && (ca.name == "") != (cb.name == "") {
+				drop[i], drop[j] = true, true
+				break
+			}
+		}
+	}
+	var out []string
+	for i, d := range diff {
+		if !drop[i] {
+			out = append(out, d)
+		}
+	}
+	return out
+}
